@@ -104,6 +104,16 @@ func c5Gen(r *Rng, i int) *Sx {
 	if raise {
 		cfgExp = Pick(r, []uint64{7200, 4294967295})
 	}
+	// in 1 of 4 scenarios a fourth session belongs to a client that connects with a zero-length client id first (MQTT 5:
+	// the broker assigns one and reports it in CONNACK) and later presents the assigned id `auto1`
+	allCids := []string{"c1", "c2", "c3"}
+	pickCids := c5Cids
+	autoFirst := false
+	if r.Chance(1, 4) {
+		allCids = append(allCids, "auto1")
+		pickCids = append(append([]string{}, c5Cids...), "auto1", "auto1", "auto1")
+		autoFirst = true
+	}
 	onlyonce := r.Bool()
 	mode := "overlap"
 	if onlyonce {
@@ -124,7 +134,7 @@ func c5Gen(r *Rng, i int) *Sx {
 	add := func(x *Sx) { steps = append(steps, x) }
 	var clock int64
 	sess := map[string]*c5Sess{}
-	for _, c := range []string{"c1", "c2", "c3"} {
+	for _, c := range allCids {
 		sess[c] = &c5Sess{}
 	}
 	var socks []*c5Sock
@@ -152,6 +162,13 @@ func c5Gen(r *Rng, i int) *Sx {
 		if short {
 			ver, clean = 5, r.Chance(1, 8)
 		}
+		sendCid := cid
+		if cid == "auto1" && autoFirst {
+			// the first CONNECT of this client: zero-length client id, MQTT 5 (the CONNACK tells the assigned id)
+			autoFirst = false
+			sendCid = ""
+			ver = 5
+		}
 		s := &c5Sock{label: len(socks) + 1, ver: ver, cid: cid, open: true, live: true, nextPid: 1}
 		socks = append(socks, s)
 		props := []*Sx{}
@@ -172,7 +189,7 @@ func c5Gen(r *Rng, i int) *Sx {
 		} else if !clean {
 			e = cfgExp
 		}
-		add(L(A("connect"), I(s.label), I(ver), K("cid", S(cid)), K("clean", Bool(clean)), K("keepalive", I(0)), K("props", props...)))
+		add(L(A("connect"), I(s.label), I(ver), K("cid", S(sendCid)), K("clean", Bool(clean)), K("keepalive", I(0)), K("props", props...)))
 		ss := sess[cid]
 		if ss.exists && ss.att != nil {
 			closeSock(ss.att) // take-over
@@ -198,7 +215,7 @@ func c5Gen(r *Rng, i int) *Sx {
 		}
 	}
 	deliver := func(topic string, qos int, src string) {
-		cids := []string{"c1", "c2", "c3"}
+		cids := allCids
 		for _, cid := range cids {
 			ss := sess[cid]
 			if !ss.exists {
@@ -248,7 +265,7 @@ func c5Gen(r *Rng, i int) *Sx {
 	pickTopic := func() string {
 		if r.Chance(2, 3) {
 			var l []string
-			for _, c := range []string{"c1", "c2", "c3"} {
+			for _, c := range allCids {
 				if ss := sess[c]; ss.exists {
 					for _, t := range c5Topics {
 						for _, f := range c5Filters {
@@ -280,7 +297,7 @@ func c5Gen(r *Rng, i int) *Sx {
 	for k := 0; k < n && len(socks) < 14; k++ {
 		live := liveSocks()
 		offline, nosubs := false, false
-		for _, c := range []string{"c1", "c2", "c3"} {
+		for _, c := range allCids {
 			if ss := sess[c]; ss.exists && ss.att == nil {
 				offline = true
 			} else if ss.exists && ss.att.live && len(ss.subs) == 0 {
@@ -328,17 +345,17 @@ func c5Gen(r *Rng, i int) *Sx {
 		switch kind {
 		case "connect":
 			// connect: mostly a client id without a live connection; 1 in 4 whatever (take-over)
-			cid := Pick(r, c5Cids)
+			cid := Pick(r, pickCids)
 			if !r.Chance(1, 4) {
 				for t := 0; t < 4; t++ {
 					if ss := sess[cid]; ss.exists && ss.att != nil && ss.att.live {
-						cid = Pick(r, c5Cids)
+						cid = Pick(r, pickCids)
 					}
 				}
 			}
 			if offline && r.Chance(2, 3) {
 				var l []string
-				for _, c := range []string{"c1", "c2", "c3"} {
+				for _, c := range allCids {
 					if ss := sess[c]; ss.exists && ss.att == nil {
 						l = append(l, c)
 					}
@@ -461,7 +478,10 @@ func c5Gen(r *Rng, i int) *Sx {
 			add(L(A("close"), I(s.label)))
 			closeSock(s)
 		case "terminate":
-			cid := Pick(r, c5Cids)
+			cid := Pick(r, pickCids)
+			if cid == "auto1" && autoFirst {
+				cid = "c1" // no id has been assigned yet
+			}
 			add(L(A("terminate"), S(cid)))
 			ss := sess[cid]
 			if ss.exists {
